@@ -583,8 +583,8 @@ LEVEL_TEXT = ('Machine-checked proofs (Coq 8.16.1) of the pure codecs, over mode
               '(unbounded days, with decimal printing/parsing lemmas); timestamp2datetime(datetime2timestamp d) = d and the SQLite datetime/date/time text encodings decode to the encoded value for '
               'every valid field tuple (date: years >= 1000); precision rounding is idempotent, never increases the value and yields a multiple of 10^(6-p), so "value after flush = value a new session '
               'decodes" for time/datetime of every precision; Decimal quantize-on-store is idempotent and exact on values that fit the scale; UUID <-> 16 bytes and bool <-> 0/1 round trips. '
-              'Defects of the code are refuted by witnesses (dates before year 1000 reload as str; a Decimal with more digits than the scale stays unrounded in '
-              'the writing session); the SQLite time defect found by this check was repaired in /repo (c022f0e) and C07_time_reload is now unconditional. PARTIAL: float-based SQLite timedelta storage, REAL/NUMERIC storage of Decimal, Json and array text round trips, str/bytes/int transport are covered only by the real '
+              'Remaining defect with a witness: a Decimal with more digits than the scale stays unrounded in the writing session; the SQLite time and date defects found by this check were repaired in /repo '
+              '(c022f0e, 80b5dcb) and C07_time_reload / C07_date_reload are unconditional. PARTIAL: float-based SQLite timedelta storage, REAL/NUMERIC storage of Decimal, Json and array text round trips, str/bytes/int transport are covered only by the real '
               'write -> commit -> new session -> read sweep (testing), not by a theorem; other backends are not executed.')
 LEVEL_NOTE = ('Trusted: Coq kernel + vm_compute; py2coq translator and shape-checked templates (outputs cross-checked against the real functions on every run); reference models of CPython '
               'formatting/strptime/timedelta/Decimal.quantize/UUID.bytes (validated by correspondence only); "SQLite returns TEXT/BLOB/INTEGER unchanged". Tested only: float timedelta, '
